@@ -125,6 +125,9 @@ Push(m, fr) == [m EXCEPT !.stack = Append(@, fr)]
 SetTop(m, fr) == [m EXCEPT !.stack = [@ EXCEPT ![Len(@)] = fr]]
 (* inside a reaction tree: some system command is between `enter` and `exit` *)
 InTree(m) == \E i \in DOMAIN m.stack : m.stack[i].f = "cmd"
+(* inside a removal / despawn poll (finding F1 can only start there: a polled reaction runs in-line for a system that has a    *)
+(* delivery applied but not started, or postponed)                                                                           *)
+InPoll(m) == \E i \in DOMAIN m.stack : m.stack[i].f = "poll"
 
 ----------------------------------------------------------------------------
 (* reference counting of reactor handles (C07) *)
@@ -522,7 +525,7 @@ OnEnter(m, o) ==
              \* finding F1: another delivery to the same system is applied but has neither started nor been postponed yet
              \* (it is inside its runner's entry poll, which is dispatching this one)
              inflight == { j \in DOMAIN m.cmd : m.cmd[j].s = c.s /\ m.cmd[j].st = "reached" }
-             m2 == IF inflight # {} THEN [m1 EXCEPT !.taint = @ \cup inflight \cup {o.k}, !.taintsys = @ \cup {c.s}] ELSE m1
+             m2 == IF inflight # {} /\ (InPoll(m) \/ c.s \in m.taintsys) THEN [m1 EXCEPT !.taint = @ \cup inflight \cup {o.k}, !.taintsys = @ \cup {c.s}] ELSE m1
          IN Push([m2 EXCEPT !.cmd = Put(@, o.k, [c EXCEPT !.seq = o.k]), !.last = NoCmd],
                  [f |-> "cmd", k |-> o.k, s |-> c.s, took |-> FALSE, r |-> 0, bd |-> FALSE, fin |-> FALSE, lastop |-> 0, idx |-> o.idx, rel |-> FALSE])
 
@@ -562,7 +565,8 @@ OnTake(m, o) ==
         older == { j \in DOMAIN m.cmd : j # o.k /\ m.cmd[j].s = c.s /\ m.cmd[j].st \in Pending /\ m.cmd[j].seq < c.seq }
         \* (a REPLAYED command with an older pending one is simply out of order - not this finding)
         \* (the finding propagates: a command that starts while an already affected older delivery is still pending takes its entry)
-        m6 == IF older # {} /\ (c.st = "reached" \/ older \cap m.taint # {}) THEN [m5 EXCEPT !.taint = @ \cup older \cup {o.k}, !.taintsys = @ \cup {c.s}] ELSE m5
+        m6 == IF older # {} /\ ((c.st = "reached" /\ InPoll(m)) \/ older \cap m.taint # {} \/ c.s \in m.taintsys)
+              THEN [m5 EXCEPT !.taint = @ \cup older \cup {o.k}, !.taintsys = @ \cup {c.s}] ELSE m5
     IN SetCmd(m6, o.k, "running")
 
 Elems(v) == { v[i] : i \in DOMAIN v }
